@@ -428,6 +428,10 @@ func (c *Conn) Write(b []byte) (int, error) {
 }
 
 func (c *Conn) inspectWrite(record []byte) error {
+	if c.writePassthrough {
+		// Records that were still buffered when inspection ended.
+		return nil
+	}
 	recType := record[0]
 	var msgType uint8
 	if len(record) > 5 { // a record may be empty
